@@ -13,7 +13,7 @@ NOTES = {
     'C19r4-b': {'caught_by_override': ['C04'], 'notes': 'Needs an interruption that is an exception, not a kill (a finally block runs): C19 is quantified over kills and does not see it; C04 artifact-after-failure:descriptor does.'},
     'C08r4-b': {'extra_caught_by': ['C04']},
     'C01r5-a': {'caught_by_override': ['C07', 'C05'], 'notes': 'stream() / checkpoint() write rows in late batches: the rows, descriptors and schedules C01 compares are unaffected (C01 does not read checkpoint or stream files); the saved stream is what C05 (completeness of the stream file) and C07 (mutating steps after a checkpoint, then resume) look at.'},
-    'C01r5-b': {'notes': 'NOT CAUGHT. A row function returning an empty dict is ignored (`self.func(row) or row`): every way of running the steps - lazy, nested, step by step - goes through the same row_processor and agrees with every other, so the differential oracle of C01 cannot see it; it would take an executable model of the row-step contract (apply user row callables by hand in the reference evaluation), which was not built.'},
+    'C01r5-b': {'notes': 'Missed until the executable model of the row-step contract was added to C01 (clause link-without-effect): every schedule goes through the same row_processor, so the differential alone cannot see a row function whose returned empty row is ignored.'},
     'C16r5-b': {'caught_by_override': ['C07'], 'notes': 'load keeps half-consumed iterators after an aborted run: needs a failed run of the same Flow object followed by a retry, with a path source - the C07 history op failrun with sources from a data package on disk.'},
     'C07r4-b': {'caught_by_override': ['C08'], 'notes': 'exists() = "the checkpoint directory is there": within run/delete/run histories the directory and the finished file always appear and disappear together (nested checkpoint names included), so C07 cannot see it; a directory without a finished file is what an interrupted run leaves behind, and C08 catches it (recovery-raised).'},
 }
